@@ -16,7 +16,8 @@ ASSUMPTIONS = [
     "JSON import (which re-uses ids by design) is excluded, as the quantifier says",
     "prune / expand / replace-with-deletion are enabled only while the affected tree is fully registered; what they remove from the "
     "tree is judged by C15/C16 - here only the registry is judged against the tree they leave",
-    "uuid1 uniqueness is observed, not explored",
+    "uuid1 uniqueness is observed, not explored (up to 70 000 / 140 000 nodes per process in scale_work)",
+    "outside the BFS: mass creation / copy / import, and replacement of a child by one of its own siblings (registry clauses only)",
 ]
 
 # templates: nested (name, content, attrs, children)
